@@ -464,3 +464,191 @@ Proof.
   simpl in H. rewrite app_nil_r, map_length in H. rewrite H.
   clear H. induction ps as [|[n c] r IH]; simpl; [reflexivity|]. now rewrite IH.
 Qed.
+
+(* ---- exactness, stated on what the API reads before and after one edit ---------------------------------------------- *)
+Lemma get_overlay_nil f p : get f (overlay p []) = patch_val f p.
+Proof. rewrite get_overlay. now destruct (patch_val f p). Qed.
+
+Lemma inl_inj {A B} (a b : A) : @inl A B a = inl b -> a = b.
+Proof. congruence. Qed.
+
+Section Exact.
+  Variable valid : view -> bool.
+
+  Lemma spec_step_rejected v o v' out : spec_step valid v o = (v', out) -> out <> OOk -> v' = v.
+  Proof.
+    unfold spec_step. destruct (spec_apply v o) as [v2|e]; [|now intros [= <- <-]].
+    destruct (valid v2); intros [= <- <-]; [congruence|reflexivity].
+  Qed.
+
+  Lemma spec_step_ok v o v' : spec_step valid v o = (v', OOk) -> spec_apply v o = inl v' /\ valid v' = true.
+  Proof.
+    unfold spec_step. destruct (spec_apply v o) as [v2|e] eqn:E.
+    - destruct (valid v2) eqn:V; intros [= <-]; auto.
+    - intros [= <- ->]. destruct o; simpl in E; try discriminate.
+      + destruct (pmem n (vp v)); discriminate.
+      + destruct (pget n (vp v)); discriminate.
+      + destruct (pmem n (vp v)); discriminate.
+  Qed.
+
+  Lemma edit_ok_candidate w o w' : wf w -> edit valid Deep w o = (w', OOk) ->
+    spec_apply (abs w) o = inl (abs w') /\ valid (abs w') = true.
+  Proof. intros Hwf E. destruct (edit_refines valid _ _ _ _ Hwf E) as [_ H]. now apply spec_step_ok. Qed.
+
+  Lemma invalid_unchanged w o w' out : wf w -> edit valid Deep w o = (w', out) -> out <> OOk -> abs w' = abs w.
+  Proof. intros Hwf E Hne. destruct (edit_refines valid _ _ _ _ Hwf E) as [_ H]. symmetry in H. eapply spec_step_rejected; eauto. Qed.
+
+  Lemma patch_global_exact w p w' : wf w -> edit valid Deep w (PatchGlobal p) = (w', OOk) ->
+    (forall f, get f (vg (abs w')) = match patch_val f p with Some v => Some v | None => get f (vg (abs w)) end) /\
+    vd (abs w') = vd (abs w) /\ vp (abs w') = vp (abs w).
+  Proof.
+    intros Hwf E. destruct (edit_ok_candidate _ _ _ Hwf E) as [H _]. cbn [spec_apply] in H. apply inl_inj in H. rewrite <- H. simpl.
+    split; [intros f; apply get_overlay|auto].
+  Qed.
+
+  Lemma patch_defaults_exact w p w' : wf w -> edit valid Deep w (PatchDefaults p) = (w', OOk) ->
+    (forall f, get f (vd (abs w')) = match patch_val f p with Some v => Some v | None => get f (vd (abs w)) end) /\
+    vg (abs w') = vg (abs w) /\ vp (abs w') = vp (abs w).
+  Proof.
+    intros Hwf E. destruct (edit_ok_candidate _ _ _ Hwf E) as [H _]. cbn [spec_apply] in H. apply inl_inj in H. rewrite <- H. simpl.
+    split; [intros f; apply get_overlay|auto].
+  Qed.
+
+  Lemma patch_exact w n p w' : wf w -> edit valid Deep w (Patch n p) = (w', OOk) ->
+    exists c c', pget n (vp (abs w)) = Some c /\ pget n (vp (abs w')) = Some c' /\
+      (forall f, get f c' = match patch_val f p with Some v => Some v | None => get f c end) /\
+      (forall n', n' <> n -> pget n' (vp (abs w')) = pget n' (vp (abs w))) /\
+      vg (abs w') = vg (abs w) /\ vd (abs w') = vd (abs w).
+  Proof.
+    intros Hwf E. destruct (edit_ok_candidate _ _ _ Hwf E) as [H _]. cbn [spec_apply] in H.
+    destruct (pget n (vp (abs w))) as [c|] eqn:G; [|discriminate]. apply inl_inj in H. rewrite <- H. simpl.
+    exists c, (overlay p c). repeat split; auto.
+    - apply pget_pset_same.
+    - intros f. apply get_overlay.
+    - intros n' Hne. now apply pget_pset_other.
+  Qed.
+
+  Lemma patch_missing_fails w n p w' out : wf w -> pget n (vp (abs w)) = None ->
+    edit valid Deep w (Patch n p) = (w', out) -> out = ONotFound /\ abs w' = abs w.
+  Proof.
+    intros Hwf G E. destruct (edit_refines valid _ _ _ _ Hwf E) as [_ H]. unfold spec_step in H. cbn [spec_apply] in H.
+    rewrite G in H. split; congruence.
+  Qed.
+
+  Lemma add_existing_fails w n p w' out : wf w -> pmem n (vp (abs w)) = true ->
+    edit valid Deep w (Add n p) = (w', out) -> out = OExists /\ abs w' = abs w.
+  Proof.
+    intros Hwf G E. destruct (edit_refines valid _ _ _ _ Hwf E) as [_ H]. unfold spec_step in H. cbn [spec_apply] in H.
+    rewrite G in H. split; congruence.
+  Qed.
+
+  Lemma add_exact w n p w' : wf w -> edit valid Deep w (Add n p) = (w', OOk) ->
+    pget n (vp (abs w)) = None /\
+    (exists c', pget n (vp (abs w')) = Some c' /\ forall f, get f c' = patch_val f p) /\
+    (forall n', n' <> n -> pget n' (vp (abs w')) = pget n' (vp (abs w))) /\
+    vg (abs w') = vg (abs w) /\ vd (abs w') = vd (abs w).
+  Proof.
+    intros Hwf E. destruct (edit_ok_candidate _ _ _ Hwf E) as [H _]. cbn [spec_apply] in H. unfold pmem in H.
+    destruct (pget n (vp (abs w))) as [c|] eqn:G; [discriminate|]. apply inl_inj in H. rewrite <- H. simpl.
+    split; [reflexivity|]. split; [|split; [|auto]].
+    - exists (overlay p []). split; [apply pget_pset_same|intros f; apply get_overlay_nil].
+    - intros n' Hne. now apply pget_pset_other.
+  Qed.
+
+  Lemma replace_exact name_f w n p w' : wf w -> edit valid Deep w (Replace n p) = (w', OOk) ->
+    (exists c', pget n (vp (abs w')) = Some c' /\ forall f, get f c' = patch_val f p) /\
+    (exists e, effective name_f (abs w') n = Some e /\ get name_f e = Some n /\
+       forall f, f <> name_f ->
+         get f e = match patch_val f p with Some v => Some v | None => get f (vd (abs w)) end) /\
+    (forall n', n' <> n -> pget n' (vp (abs w')) = pget n' (vp (abs w))) /\
+    vg (abs w') = vg (abs w) /\ vd (abs w') = vd (abs w).
+  Proof.
+    intros Hwf E. destruct (edit_ok_candidate _ _ _ Hwf E) as [H _]. cbn [spec_apply] in H. apply inl_inj in H. rewrite <- H.
+    unfold effective. simpl. rewrite pget_pset_same. split; [|split; [|split; [|auto]]].
+    - exists (overlay p []). split; [reflexivity|intros f; apply get_overlay_nil].
+    - eexists. split; [reflexivity|]. split; [apply get_set_same|].
+      intros f Hne. rewrite get_set_other by assumption. rewrite get_overlay.
+      assert (Hp : patch_val f (overlay p []) = patch_val f p).
+      { (* the cell has each field once, with the value the request gave last *)
+        unfold patch_val at 1. 
+        assert (Hnd : forall q m, NoDup (map fst m) -> NoDup (map fst (overlay q m))).
+        { clear. unfold overlay. induction q as [|[k v] q IH]; intros m Hm; simpl; [exact Hm|]. apply IH.
+          clear IH. induction m as [|[k' v'] r IHm]; simpl.
+          - constructor; [tauto|constructor].
+          - inversion Hm as [|y l Hy Hm' Heq]; subst. destruct (k' =? k) eqn:Ek; simpl.
+            + apply Z.eqb_eq in Ek. subst. now constructor.
+            + constructor; [|auto]. intros Hin. apply Hy.
+              clear - Hin Ek. induction r as [|[k2 v2] r IHr]; simpl in *.
+              * destruct Hin as [->|[]]. now rewrite Z.eqb_refl in Ek.
+              * destruct (k2 =? k) eqn:E2; simpl in Hin; [apply Z.eqb_eq in E2; subst; exact Hin|].
+                destruct Hin as [Hin|Hin]; auto. }
+        fold (patch_val f (overlay p [])). rewrite patch_val_nodup by (apply Hnd; constructor).
+        apply get_overlay_nil. }
+      now rewrite Hp.
+    - intros n' Hne. now apply pget_pset_other.
+  Qed.
+
+  Lemma delete_missing_fails w n w' out : wf w -> pmem n (vp (abs w)) = false ->
+    edit valid Deep w (Delete n) = (w', out) -> out = ONotFound /\ abs w' = abs w.
+  Proof.
+    intros Hwf G E. destruct (edit_refines valid _ _ _ _ Hwf E) as [_ H]. unfold spec_step in H. cbn [spec_apply] in H.
+    rewrite G in H. split; congruence.
+  Qed.
+
+  Lemma delete_exact w n w' : wf w -> edit valid Deep w (Delete n) = (w', OOk) ->
+    pmem n (vp (abs w)) = true /\ pget n (vp (abs w')) = None /\
+    (forall n', n' <> n -> pget n' (vp (abs w')) = pget n' (vp (abs w))) /\
+    vg (abs w') = vg (abs w) /\ vd (abs w') = vd (abs w).
+  Proof.
+    intros Hwf E. destruct (edit_ok_candidate _ _ _ Hwf E) as [H _]. cbn [spec_apply] in H.
+    destruct (pmem n (vp (abs w))) eqn:G; [|discriminate]. apply inl_inj in H. rewrite <- H. simpl.
+    repeat split; auto; [apply pget_pdel_same|]. intros n' Hne. now apply pget_pdel_other.
+  Qed.
+
+  (* a request the handler could not decode never reaches the configuration *)
+  Lemma bad_unchanged w w' out : edit valid Deep w Bad = (w', out) -> out = OInvalid /\ w' = w.
+  Proof. unfold edit. simpl. intros [= <- <-]. split; [reflexivity|now destruct w]. Qed.
+
+  (* every path's effective configuration: the fields that are set, the defaults for the others, its own name *)
+  Lemma effective_exact name_f v n e : effective name_f v n = Some e ->
+    exists c, pget n (vp v) = Some c /\ get name_f e = Some n /\
+      forall f, f <> name_f -> get f e = match patch_val f c with Some x => Some x | None => get f (vd v) end.
+  Proof.
+    unfold effective. destruct (pget n (vp v)) as [c|]; [|discriminate]. intros [= <-]. exists c.
+    split; [reflexivity|]. split; [apply get_set_same|]. intros f Hne. rewrite get_set_other by assumption. apply get_overlay.
+  Qed.
+
+  (* history form, from a configuration loaded from a file *)
+  Lemma refines_from_load v ops : 
+    let '(w', outs) := run valid Deep (load v) ops in (abs w', outs) = spec_run valid v ops.
+  Proof.
+    destruct (run valid Deep (load v) ops) as [w' outs] eqn:E.
+    destruct (run_refines valid ops _ _ _ (load_wf v) E) as [_ H]. now rewrite load_abs in H.
+  Qed.
+
+  Lemma reads_from_load v ls s' evs :
+    crun valid Deep FromPublished (core_init (load v)) ls = Some (s', evs) -> evs = spec_events valid v ls.
+  Proof.
+    intros H. pose proof (crun_refines valid ls _ _ _ (cinv_init _ (load_wf v)) H) as R.
+    change (view_of (mem (cw (core_init (load v)))) (published (core_init (load v)))) with (abs (load v)) in R.
+    now rewrite load_abs in R.
+  Qed.
+End Exact.
+
+(* ---- what goes wrong without an independent clone / when reads come from the running configuration ------------------ *)
+Definition ex_world : world := load {| vg := [(1, 10)]; vd := [(2, 20); (3, 30)]; vp := [(100, [(2, 21)])] |}.
+
+Lemma shallow_clone_refuted :
+  exists valid w o w', edit valid ShallowIface w o = (w', OInvalid) /\ wf w /\ abs w' <> abs w.
+Proof.
+  exists (fun _ => false), ex_world, (Patch 100 [(2, 22)]). eexists. split; [vm_compute; reflexivity|].
+  split; [apply load_wf|]. vm_compute. discriminate.
+Qed.
+
+Lemma running_read_refuted :
+  exists valid v ls s' evs, crun valid Deep FromRunning (core_init (load v)) ls = Some (s', evs) /\
+    evs <> spec_events valid v ls.
+Proof.
+  exists (fun _ => true), (abs ex_world), [LEdit (Add 101 [(3, 31)]); LRead; LReload; LRead]. eexists. eexists.
+  split; [vm_compute; reflexivity|]. vm_compute. discriminate.
+Qed.
